@@ -1219,7 +1219,7 @@ class Encoder:
         # one object, one encoding (the same object met again is written out again, identically)
         if id(obj) in self.memo:
             self.size += self.memo[id(obj)][1]
-            if self.size > 700:
+            if self.size > 300:
                 raise Unsupported("statement too large for the model runner")
             return self.memo[id(obj)][0]
         if id(obj) in self.open:
@@ -1230,7 +1230,7 @@ class Encoder:
         n = self._node(obj)
         self.open.discard(id(obj))
         self.memo[id(obj)] = (n, self.size - before)
-        if self.size > 700:
+        if self.size > 300:
             raise Unsupported("statement too large for the model runner")
         return n
 
